@@ -1,4 +1,5 @@
 import Proofs.Sh
+import Proofs.ShEnv
 /-!
 # C19  The printable command line is a faithful shell quoting of the command
 
@@ -72,6 +73,68 @@ theorem c19_roundtrip (cmd : List Char) (args : List (List Char)) (hr : reserved
 theorem c19_never_unsupported (cmd : List Char) (args : List (List Char)) (hr : reserved cmd = false) :
     parse (toCmdline (cmd :: args)) ≠ none := by
   rw [c19_roundtrip cmd args hr]; simp
+
+/-! ### Environment overrides in front of the command (`env = Some(_)`)
+
+  The property's statement is about the program and its arguments; with environment overrides the
+  printed line gains `NAME=value ` words, and the command must still be what `sh` runs.  The theorem
+  below says more: for variable names that are shell names (the only ones `sh` can assign), the shell
+  sees exactly the printed assignments, in order, with their values intact, then the command.  A
+  *removed* variable is printed as `NAME=` (an assignment of the empty string: `sh` has no syntax for
+  "unset for this command"), which is how it shows up on the right-hand side. -/
+
+/-- **C19 (with environment overrides).**  For every current environment, every environment vector of
+    the command whose printed names are shell names, every program name that is not a reserved word
+    and every argument list: the shell strips exactly the printed assignments (values intact: blanks,
+    quotes, `=`, `$`, newlines included) and then runs exactly the original program with the original
+    arguments -- the command name is never mistaken for an assignment, an assignment never swallows the
+    command. -/
+theorem c19_env_roundtrip (cur cmdEnv : List (List Char × List Char)) (cmd : List Char) (args : List (List Char))
+    (hs : ∀ kv ∈ envSets cur cmdEnv, isIdent kv.1 = true) (hu : ∀ k ∈ envUnsets cur cmdEnv, isIdent k = true)
+    (hr : reserved cmd = false) :
+    parseWithEnv (toCmdlineEnv cur cmdEnv (cmd :: args))
+      = some (envSets cur cmdEnv ++ (envUnsets cur cmdEnv).map (fun k => (k, [])), [cmd :: args]) := by
+  unfold parseWithEnv toCmdlineEnv envPrefix
+  generalize envSets cur cmdEnv = sets at hs ⊢
+  generalize envUnsets cur cmdEnv = unsets at hu ⊢
+  have hT := takeAssign_cmdline_none cmd args
+  have h1 := strip_unsets unsets (toCmdline (cmd :: args)) (toCmdline (cmd :: args)) [] 0 hu
+    (fun m _ => strip_base _ hT m)
+  have h2 := strip_sets sets ((unsets.map unsetText).flatten ++ toCmdline (cmd :: args)) (toCmdline (cmd :: args))
+    (unsets.map (fun k => (k, [])) ++ []) unsets.length hs (fun m hm => h1 m (by omega))
+  have hlen : sets.length + unsets.length ≤
+      ((sets.map assignText).flatten ++ ((unsets.map unsetText).flatten ++ toCmdline (cmd :: args))).length := by
+    have a := flatten_len_ge assignText sets assignText_len
+    have b := flatten_len_ge unsetText unsets unsetText_len
+    simp only [List.length_append]; omega
+  have h3 := h2 _ hlen
+  rw [List.append_assoc, h3]
+  simp only [c19_roundtrip cmd args hr, List.append_nil]
+
+/-- without overrides nothing changes: the assignment-aware reading of a plain command line is the plain one -/
+theorem c19_env_none (cmd : List Char) (args : List (List Char)) (hr : reserved cmd = false) :
+    parseWithEnv (toCmdline (cmd :: args)) = some ([], [cmd :: args]) := by
+  unfold parseWithEnv
+  rw [strip_base _ (takeAssign_cmdline_none cmd args)]
+  simp only [c19_roundtrip cmd args hr]
+
+/-- a program *named* like an assignment is quoted, so it stays a program -/
+example : parseWithEnv (toCmdline ["A=b".toList, "x".toList]) = some ([], [["A=b".toList, "x".toList]]) := by decide
+
+/-- non-vacuity and a regression witness (a test, labelled as a test) -/
+example : parseWithEnv (toCmdlineEnv [("HOME".toList, "/root".toList), ("OLD".toList, "1".toList)]
+      [("HOME".toList, "/root".toList), ("VERIF_A".toList, "two words".toList), ("_V".toList, "".toList), ("K".toList, "k=v it's".toList)]
+      ["prog".toList, "a b".toList])
+    = some ([("VERIF_A".toList, "two words".toList), ("_V".toList, "".toList), ("K".toList, "k=v it's".toList), ("OLD".toList, [])],
+            [["prog".toList, "a b".toList]]) := by decide
+example : String.ofList (toCmdlineEnv [("OLD".toList, "1".toList)] [("VERIF_A".toList, "two words".toList)] ["prog".toList])
+    = "VERIF_A='two words' OLD= prog" := by decide
+
+/-- why the hypothesis on names is there (observation, outside the property's quantifier, which ranges over
+    argument vectors): a variable whose name is not a shell name cannot be assigned by `sh` at all; printed
+    bare (`a.b=1`) it becomes the command. -/
+theorem c19_env_nonname_counterexample :
+    parseWithEnv (toCmdlineEnv [] [("a.b".toList, "1".toList)] ["prog".toList]) = none := by decide
 
 /-! ### Regression witnesses and non-vacuity (tests, labelled as tests) -/
 
